@@ -685,9 +685,19 @@ def check_cut(case, v):
             if mode == "all-beyond":
                 rg = _ranges(meta, low_hi=Tcut / Tn, genuine=case["genuine"], extrapolate=case["extrapolate"])
             else:
-                if ctx0.fam == "cubic" and not refj.Tm < meta["T_valid"][1]:
-                    v.label("high-narrow:cubic-natural-cut")
-                    return v
+                if ctx0.fam == "cubic":
+                    # the broken phase of the cubic family has a natural (genuine) end; T- of detonations is largest
+                    # at the Chapman-Jouguet point itself, so 'the low-T range is never reached' is only true if
+                    # that temperature - not T-(vJ + CUT_MARGIN) - lies below the natural end.  (False alarm at
+                    # VERIF_SEED=4: natural end between T-(vJ + 2.5e-4) and T-(vJ + 0.01); slowestDeton() correctly
+                    # returned that velocity + 0.01.)
+                    try:
+                        TmJ = R.chapman_jouguet(eos, Tn)[1]
+                    except R.RefFailure:
+                        TmJ = float("inf")
+                    if not TmJ * (1.0 + 1e-3) < meta["T_valid"][1]:
+                        v.label("high-narrow:cubic-natural-cut")
+                        return v
                 rg = _ranges(meta, high_hi=Tcut / Tn, genuine=case["genuine"], extrapolate=case["extrapolate"])
             if rg is None:
                 v.label("cut:beyond-natural-end")
